@@ -153,18 +153,18 @@ pub fn run_c03(tier: Tier) -> ! {
     for dev in 0..3u8 {
         let mut cfg = base_cfg(vec![PeriphCfg::simple(9, 2, 1)], Mon::C03, std_acts(1, &ALL_MALFORMED, true));
         cfg.slave_dev = vec![dev];
-        plans.push(Plan { label: format!("1p dev{dev}"), cfg, depth: tier.pick(9, 40), max_states: tier.pick(400_000, 5_000_000), secs: tier.pick(25.0, 400.0) });
+        plans.push(Plan { label: format!("1p dev{dev}"), cfg, depth: tier.pick(8, 40), max_states: tier.pick(400_000, 5_000_000), secs: tier.pick(150.0, 4000.0) });
     }
     // (3) two / three peripherals
     {
         let mal: Vec<u8> = tier.pick(vec![0, 2, 8, 16, 17], vec![0, 1, 2, 5, 8, 12, 16, 17]);
         let mut cfg = base_cfg(vec![PeriphCfg::simple(9, 2, 1), PeriphCfg::simple(11, 1, 2)], Mon::C03, std_acts(2, &mal, true));
         cfg.dev_budget = tier.pick(255, 3);
-        plans.push(Plan { label: "2p".into(), cfg, depth: tier.pick(6, 14), max_states: tier.pick(300_000, 4_000_000), secs: tier.pick(25.0, 400.0) });
+        plans.push(Plan { label: "2p".into(), cfg, depth: tier.pick(6, 14), max_states: tier.pick(300_000, 4_000_000), secs: tier.pick(150.0, 4000.0) });
         if tier == Tier::Thorough {
             let mut cfg = base_cfg(vec![PeriphCfg::simple(9, 2, 1), PeriphCfg::simple(11, 1, 2), PeriphCfg::simple(4, 0, 0)], Mon::C03, std_acts(3, &[0, 2, 8, 16], false));
             cfg.dev_budget = 2;
-            plans.push(Plan { label: "3p".into(), cfg, depth: 10, max_states: 3_000_000, secs: tier.pick(8.0, 240.0) });
+            plans.push(Plan { label: "3p".into(), cfg, depth: 10, max_states: 3_000_000, secs: tier.pick(60.0, 2400.0) });
         }
     }
     // (4) option grid, fault-free bring-up plus one power cycle (checks the Set_Prm / Chk_Cfg bytes)
@@ -205,7 +205,7 @@ pub fn run_c03(tier: Tier) -> ! {
                                     cfg.rig.watchdog_ms = *wd;
                                     cfg.dev_budget = 1;
                                     grid += 1;
-                                    plans.push(Plan { label: format!("grid{grid}"), cfg, depth: 12, max_states: 10_000, secs: 5.0 });
+                                    plans.push(Plan { label: format!("grid{grid}"), cfg, depth: 12, max_states: 10_000, secs: 120.0 });
                                 }
                             }
                         }
@@ -214,7 +214,7 @@ pub fn run_c03(tier: Tier) -> ! {
             }
         }
     }
-    let t = explore(plans, tier.pick(40.0, 600.0), &|w| {
+    let t = explore(plans, tier.pick(400.0, 14400.0), &|w| {
         if w.acts.len() > 4 {
             ctx().witness("c03_state_beyond_bringup");
         }
@@ -233,7 +233,7 @@ pub fn run_c03(tier: Tier) -> ! {
     finish_mc(
         t,
         "BFS over the joint state (real DpMaster, reference slaves, outstanding request, bring-up phase automaton); transitions = environment answers (answered / request lost / reply lost / token lost / power cycle / fault flags / 26 catalogue replies / user diagnostics request); states deduplicated on a canonical fingerprint; plus the option grid (fault-free bring-up + one power cycle) and all 65000 watchdog values",
-        json!({"one_peripheral_depth": tier.pick(9, 40), "two_peripherals_depth": tier.pick(6, 14), "option_grid_worlds": grid, "watchdog_values": 65000}),
+        json!({"one_peripheral_depth": tier.pick(8, 40), "two_peripherals_depth": tier.pick(6, 14), "option_grid_worlds": grid, "watchdog_values": 65000}),
         vec!["c03_data_exchange_reached", "c03_state_beyond_bringup"],
         wd_evals,
     )
@@ -260,20 +260,20 @@ pub fn run_c04(tier: Tier) -> ! {
             let mut p = PeriphCfg::simple(9, *i, *q);
             p.diag_buf = Some(8);
             let cfg = base_cfg(vec![p], Mon::C04, acts);
-            plans.push(Plan { label: format!("1p q{q} i{i}"), cfg, depth: tier.pick(8, 11), max_states: tier.pick(60_000, 1_000_000), secs: tier.pick(8.0, 240.0) });
+            plans.push(Plan { label: format!("1p q{q} i{i}"), cfg, depth: tier.pick(8, 11), max_states: tier.pick(60_000, 1_000_000), secs: tier.pick(60.0, 2400.0) });
         }
     }
     // two / three peripherals: images of the other peripherals must stay untouched
     {
         let acts = vec![Act::Answer, Act::ReplyLost, Act::UserWrite(0, 2), Act::UserWrite(1, 3), Act::InputChange(2), Act::Malformed(12), Act::Malformed(14), Act::Malformed(0), Act::Malformed(8)];
         let cfg = base_cfg(vec![PeriphCfg::simple(9, 2, 1), PeriphCfg::simple(11, 2, 1)], Mon::C04, acts.clone());
-        plans.push(Plan { label: "2p".into(), cfg, depth: tier.pick(10, 16), max_states: tier.pick(200_000, 3_000_000), secs: tier.pick(8.0, 240.0) });
+        plans.push(Plan { label: "2p".into(), cfg, depth: tier.pick(10, 16), max_states: tier.pick(200_000, 3_000_000), secs: tier.pick(60.0, 2400.0) });
         if tier == Tier::Thorough {
             let cfg = base_cfg(vec![PeriphCfg::simple(9, 2, 1), PeriphCfg::simple(11, 2, 1), PeriphCfg::simple(4, 0, 3)], Mon::C04, acts);
-            plans.push(Plan { label: "3p".into(), cfg, depth: 18, max_states: 3_000_000, secs: tier.pick(8.0, 240.0) });
+            plans.push(Plan { label: "3p".into(), cfg, depth: 18, max_states: 3_000_000, secs: tier.pick(60.0, 2400.0) });
         }
     }
-    let mut t = explore(plans, tier.pick(45.0, 600.0), &|_w| {});
+    let mut t = explore(plans, tier.pick(400.0, 14400.0), &|_w| {});
     // drive mode (b): under a real FdlActiveStation, with stray / foreign telegrams as answers
     let (runs, reqs) = crate::props::w2props::c04_images_under_fdl(tier);
     t.states += runs;
@@ -389,14 +389,14 @@ pub fn run_c07(tier: Tier) -> ! {
     for retry in tier.pick(vec![1u8], vec![1, 2, 3]) {
         let mut cfg = base_cfg(vec![PeriphCfg::simple(9, 2, 1)], Mon::C07, std_acts(1, &mal1, true));
         cfg.rig.max_retry = retry;
-        plans.push(Plan { label: format!("1p retry{retry}"), cfg, depth: tier.pick(10, 30), max_states: tier.pick(150_000, 3_000_000), secs: tier.pick(8.0, 240.0) });
+        plans.push(Plan { label: format!("1p retry{retry}"), cfg, depth: tier.pick(10, 30), max_states: tier.pick(150_000, 3_000_000), secs: tier.pick(60.0, 2400.0) });
     }
     {
         let mut cfg = base_cfg(vec![PeriphCfg::simple(9, 2, 1), PeriphCfg::simple(11, 0, 2)], Mon::C07, std_acts(2, &[0, 2, 8, 16], true));
         cfg.dev_budget = tier.pick(2, 3);
-        plans.push(Plan { label: "2p".into(), cfg, depth: tier.pick(8, 14), max_states: tier.pick(100_000, 2_000_000), secs: tier.pick(8.0, 240.0) });
+        plans.push(Plan { label: "2p".into(), cfg, depth: tier.pick(8, 14), max_states: tier.pick(100_000, 2_000_000), secs: tier.pick(60.0, 2400.0) });
     }
-    let t = explore(plans, tier.pick(40.0, 900.0), &|w| {
+    let t = explore(plans, tier.pick(400.0, 14400.0), &|w| {
         if w.dead {
             return;
         }
@@ -442,8 +442,8 @@ pub fn run_c08(tier: Tier) -> ! {
         acts.push(Act::UserWrite(0, 2));
         let mut cfg = base_cfg(vec![PeriphCfg::simple(9, 2, 1)], Mon::C08, acts);
         cfg.rig.max_retry = retry;
-        let depth = if retry == 15 { 40 } else { tier.pick(11, 30) };
-        plans.push(Plan { label: format!("1p retry{retry}"), cfg, depth, max_states: tier.pick(200_000, 4_000_000), secs: tier.pick(8.0, 240.0) });
+        let depth = match (tier, retry) { (Tier::Quick, _) => 10, (_, 1) => 30, (_, 2) => 16, (_, 3) => 14, _ => 12 };
+        plans.push(Plan { label: format!("1p retry{retry}"), cfg, depth, max_states: tier.pick(200_000, 4_000_000), secs: tier.pick(60.0, 2400.0) });
     }
     // every admissible retry limit (1..=15) with a narrow alphabet: loss runs of any length at any point of
     // the life cycle (the state space stays small because the retry counter is the only thing that grows)
@@ -451,15 +451,15 @@ pub fn run_c08(tier: Tier) -> ! {
         let acts = vec![Act::Answer, Act::ReqLost, Act::ReplyLost, Act::UserDiag(0), Act::Malformed(0)];
         let mut cfg = base_cfg(vec![PeriphCfg::simple(9, 2, 1)], Mon::C08, acts);
         cfg.rig.max_retry = retry;
-        plans.push(Plan { label: format!("1p loss runs retry{retry}"), cfg, depth: retry as usize + tier.pick(9, 14), max_states: tier.pick(200_000, 4_000_000), secs: tier.pick(4.0, 120.0) });
+        plans.push(Plan { label: format!("1p loss runs retry{retry}"), cfg, depth: retry as usize + tier.pick(9, 14), max_states: tier.pick(200_000, 4_000_000), secs: tier.pick(30.0, 1200.0) });
     }
     for np in tier.pick(vec![2usize], vec![2, 3]) {
         let periphs: Vec<PeriphCfg> = [PeriphCfg::simple(9, 2, 1), PeriphCfg::simple(11, 0, 2), PeriphCfg::simple(4, 1, 0)][..np].to_vec();
         let mut cfg = base_cfg(periphs, Mon::C08, std_acts(np as u8, &[0, 7, 8, 12], true));
         cfg.dev_budget = tier.pick(3, 3);
-        plans.push(Plan { label: format!("{np}p"), cfg, depth: tier.pick(9, 14), max_states: tier.pick(200_000, 4_000_000), secs: tier.pick(8.0, 240.0) });
+        plans.push(Plan { label: format!("{np}p"), cfg, depth: tier.pick(9, 14), max_states: tier.pick(200_000, 4_000_000), secs: tier.pick(60.0, 2400.0) });
     }
-    let t = explore(plans, tier.pick(40.0, 900.0), &|w| {
+    let t = explore(plans, tier.pick(400.0, 14400.0), &|w| {
         if w.acts.len() > 5 {
             ctx().witness("c08_deep_state");
         }
@@ -482,7 +482,7 @@ pub fn run_c08(tier: Tier) -> ! {
     finish_mc(
         t,
         "BFS over the joint state space (real DpMaster, reference slaves, per-destination frame-count monitor as history variables); transitions as C03 plus user calls at every point; oracle on the function-code byte and full bytes of consecutive requests per destination and on Offline events",
-        json!({"max_retry_limits": tier.pick(vec![1, 2], vec![1, 2, 3, 15]), "loss_run_worlds_retry_limits": "1..=15", "one_peripheral_depth": tier.pick(11, 30), "multi_peripheral_depth": tier.pick(9, 14)}),
+        json!({"max_retry_limits": tier.pick(vec![1, 2], vec![1, 2, 3, 15]), "loss_run_worlds_retry_limits": "1..=15", "one_peripheral_depth": tier.pick("10", "30 / 16 / 14 / 12 for retry limit 1 / 2 / 3 / 15"), "multi_peripheral_depth": tier.pick(9, 14)}),
         vec!["c08_deep_state", "c08_stateright_cross_check_agrees"],
         0,
     )
@@ -515,7 +515,7 @@ pub fn run_c14(tier: Tier) -> ! {
                         cfg2.rig.fixed_slots = fixed;
                         cfg2.late_add = true;
                         cfg2.dev_budget = if n >= 2 { 3 } else { 255 };
-                        plans.push(Plan { label: format!("{n}p fixed={fixed:?} late-add"), cfg: cfg2, depth: tier.pick(8, 12), max_states: tier.pick(60_000, 1_000_000), secs: tier.pick(8.0, 240.0) });
+                        plans.push(Plan { label: format!("{n}p fixed={fixed:?} late-add"), cfg: cfg2, depth: tier.pick(8, 12), max_states: tier.pick(60_000, 1_000_000), secs: tier.pick(60.0, 2400.0) });
                     }
                     let mut cfg = base_cfg(ps[..n].to_vec(), Mon::C14, acts);
                     cfg.rig.fixed_slots = fixed;
@@ -530,12 +530,12 @@ pub fn run_c14(tier: Tier) -> ! {
                         2 => tier.pick(10, 14),
                         _ => 14,
                     };
-                    plans.push(Plan { label: format!("{n}p fixed={fixed:?} gc={gc} hp={hp}"), cfg, depth, max_states: tier.pick(60_000, 1_500_000), secs: tier.pick(8.0, 240.0) });
+                    plans.push(Plan { label: format!("{n}p fixed={fixed:?} gc={gc} hp={hp}"), cfg, depth, max_states: tier.pick(60_000, 1_500_000), secs: tier.pick(60.0, 2400.0) });
                 }
             }
         }
     }
-    let t = explore(plans, tier.pick(45.0, 900.0), &|_w| {});
+    let t = explore(plans, tier.pick(400.0, 14400.0), &|_w| {});
     finish_mc(
         t,
         "BFS over (real DpMaster with 0..4 peripherals in a fixed 4-slot array or a growing Vec, reference slaves, cycle/turn monitor and per-peripheral life-cycle automaton as history variables); transitions = answered / lost / token lost / power cycle / RR, RS and parameter-fault replies / long token absence / user diagnostics requests; events taken after every callback",
